@@ -12,9 +12,9 @@ for d in harness/cmd/*/; do
   (cd harness && go1.26 build -tags verif -o "bin/$n" "./cmd/$n") || { echo "setup: harness $n failed to build"; rc=1; continue; }
   case "$n" in c[0-9][0-9]) ID=$(echo "$n" | tr a-z A-Z); harness/bin/$n --emit-facts "lean/BV/Generated/$ID.lean" || rc=1;; esac
 done
-(cd lean && lake build bvdrv) || rc=1
 for p in lean/BV/C*/Props.lean; do
   ID=$(basename "$(dirname "$p")")
-  (cd lean && lake build "BV.$ID.Props") || { echo "setup: BV.$ID.Props failed"; rc=1; }
+  low=$(echo "$ID" | tr A-Z a-z)
+  (cd lean && lake build "drv_$low" "BV.$ID.Props") || { echo "setup: BV.$ID.Props failed"; rc=1; }
 done
 exit $rc
